@@ -20,6 +20,7 @@ const c34K = 4
 const c34Vanish = "client vanishes|T:60000000000"
 
 type c34mon struct {
+	dur      time.Duration
 	view     string // disconnected connecting active asleep
 	tConnect time.Duration
 	sleepEnd time.Duration
